@@ -38,13 +38,17 @@ def observe (e : Err) (mask : Bool := false) : String :=
 /-- `hop <n> <carrier> <err…>`: carriers whose name starts with `Resolve` are HEAD-based; for
 carriers whose name starts with `Writer` (errors out of a `BlobWriter`) the message is masked
 after the first hop: client and server add context to it on purpose. -/
+def driveHop (n carrier : String) (rest : List String) : String :=
+  match n.toNat?, parseErr rest with
+  | some n, some (e, []) =>
+    let head := carrier.startsWith "Resolve"
+    observe (hops S C compactJSON genTable stdMsg head n e) (carrier.startsWith "Writer" && n > 0)
+  | _, _ => "bad-op"
+
 def drive : List String → String
-  | "hop" :: n :: carrier :: rest =>
-    match n.toNat?, parseErr rest with
-    | some n, some (e, []) =>
-      let head := carrier.startsWith "Resolve"
-      observe (hops S C compactJSON genTable stdMsg head n e) (carrier.startsWith "Writer" && n > 0)
-    | _, _ => "bad-op"
+  | "hop" :: n :: carrier :: rest => driveHop n carrier rest
+  -- the same chain with challenging registries and the auth transport (no credentials) in the clients
+  | "hopa" :: n :: carrier :: rest => driveHop n carrier rest
   | "hopbig" :: _ => "skip"     -- error bodies beyond the client's size limit: not modelled
   | _ => "bad-op"
 
